@@ -159,6 +159,12 @@ func seqOps() []seqOp {
 		// the index variable under an operator, as an argument
 		{"print(-j)", one(fl.P(&fl.Un{Op: "-", X: fl.V("j")}))},
 		{"x=get(-j)", one(as(x, fl.B("+", x, fl.C("seq_neg", &fl.Un{Op: "-", X: fl.V("j")}))))},
+		// a range loop whose body changes the variable that was its bound (the range is evaluated once)
+		{"for-range-n", blk(&fl.Let{Name: "n", T: i32, Init: l(4)}, &fl.ForRange{Var: "i", Lo: l(0), Hi: fl.V("n"), Body: []fl.Stmt{&fl.OpAssign{Op: "+=", LHS: x, RHS: fl.V("i")}, as(fl.V("n"), fl.B("-", fl.V("n"), l(1)))}}, as(y, fl.V("n")))},
+		// a closure over two locals
+		{"closure2", blk(&fl.Let{Name: "k", T: i32, Init: y}, &fl.Let{Name: "m", T: i32, Init: x},
+			&fl.Let{Name: "f", Init: &fl.FuncLit{Params: []fl.Param{{"v", i32}}, Ret: i32, Body: []fl.Stmt{&fl.Return{X: fl.B("+", fl.B("+", fl.V("v"), fl.V("k")), fl.V("m"))}}}},
+			as(x, &fl.Call{FnX: fl.V("f"), Args: []fl.Expr{l(1)}}))},
 		// a shared reference whose last use is followed, in the same block, by a write to the referent
 		{"ref-then-write", blk(&fl.Let{Name: "rs", T: fl.TRef{Elem: i32}, Init: &fl.Borrow{X: x}}, as(y, fl.B("+", y, fl.V("rs"))), as(x, fl.B("+", x, l(1))))},
 		{"print-bool", one(fl.P(fl.B("&&", fl.B(">", x, y), fl.B("<", b, fl.L(u8, 100)))))},
@@ -245,7 +251,7 @@ func SeqBases(quick bool) []*prog.Case {
 	ops := seqOps()
 	sens := map[string]bool{"a[j]=x": true, "y=a[j]": true, "j=2": true, "y=-j": true, "x+=j*2": true, "a[-j]=y": true, "if-swap": true, "while": true,
 		"match-x": true, "closure": true, "ref-local": true, "y=get(&x)": true, "for-range": true, "catch": true,
-		"elseif-idx": true, "match-idx": true, "else-idx": true, "else-dyn-idx": true, "ref-then-write": true, "match-dyn-idx": true, "print(-j)": true, "x=get(-j)": true}
+		"elseif-idx": true, "match-idx": true, "else-idx": true, "else-dyn-idx": true, "ref-then-write": true, "match-dyn-idx": true, "print(-j)": true, "x=get(-j)": true, "for-range-n": true, "closure2": true}
 	var out []*prog.Case
 	for i := range ops {
 		out = append(out, seqCase(ops, []int{i}))
